@@ -131,8 +131,10 @@ dither_init (SF_PRIVATE *psf, int mode)
 		switch (SF_CODEC (psf->sf.format))
 		{	case SF_FORMAT_DOUBLE :
 			case SF_FORMAT_FLOAT :
-					pdither->read_int = psf->read_int ;
-					psf->read_int = dither_read_int ;
+					if (psf->read_int != dither_read_int)
+					{	pdither->read_int = psf->read_int ;
+						psf->read_int = dither_read_int ;
+						} ;
 					break ;
 
 			case SF_FORMAT_PCM_32 :
@@ -140,8 +142,10 @@ dither_init (SF_PRIVATE *psf, int mode)
 			case SF_FORMAT_PCM_16 :
 			case SF_FORMAT_PCM_S8 :
 			case SF_FORMAT_PCM_U8 :
-					pdither->read_short = psf->read_short ;
-					psf->read_short = dither_read_short ;
+					if (psf->read_short != dither_read_short)
+					{	pdither->read_short = psf->read_short ;
+						psf->read_short = dither_read_short ;
+						} ;
 					break ;
 
 			default : break ;
@@ -194,16 +198,32 @@ static void dither_int		(const int *in, int *out, int frames, int channels) ;
 static void dither_float	(const float *in, float *out, int frames, int channels) ;
 static void dither_double	(const double *in, double *out, int frames, int channels) ;
 
+/*
+** Dither on read is not implemented : deliver what the codec delivers. (These used
+** to return len without touching the caller's buffer.)
+*/
 static sf_count_t
-dither_read_short (SF_PRIVATE * UNUSED (psf), short * UNUSED (ptr), sf_count_t len)
-{
-	return len ;
+dither_read_short (SF_PRIVATE *psf, short *ptr, sf_count_t len)
+{	DITHER_DATA *pdither ;
+
+	if ((pdither = psf->dither) == NULL || pdither->read_short == NULL)
+	{	psf->error = SFE_DITHER_BAD_PTR ;
+		return 0 ;
+		} ;
+
+	return pdither->read_short (psf, ptr, len) ;
 } /* dither_read_short */
 
 static sf_count_t
-dither_read_int (SF_PRIVATE * UNUSED (psf), int * UNUSED (ptr), sf_count_t len)
-{
-	return len ;
+dither_read_int (SF_PRIVATE *psf, int *ptr, sf_count_t len)
+{	DITHER_DATA *pdither ;
+
+	if ((pdither = psf->dither) == NULL || pdither->read_int == NULL)
+	{	psf->error = SFE_DITHER_BAD_PTR ;
+		return 0 ;
+		} ;
+
+	return pdither->read_int (psf, ptr, len) ;
 } /* dither_read_int */
 
 /*------------------------------------------------------------------------------
